@@ -31,7 +31,9 @@ enum { KEEP_IF_SAME = 1,   // the command leaves an output whose content would n
        NONCANONICAL_DEPFILE = 16,
        REGEN_MANIFEST = 32,
        RUNS_RESTAT_TOOL = 64,
-       REMOVES_EMPTY_DIRS = 128 };   // the command prunes every directory that holds no file (a packaging / tidy-up step: find -type d -empty -delete)     // the command runs `ninja -t restat` in the build directory when it is done (as CMake's regeneration step does)       // the statement regenerates build.ninja from configure.in (each edit of configure.in selects the next manifest variant)  // the command spells the extra files it read as ./name in its depfile (compilers do, for -I. includes)  // by the manifest text this statement lies on a dependency cycle (expectation independent of ninja's own parse)
+       REMOVES_EMPTY_DIRS = 128,
+       HALVE_FIRST = 256,
+       LAZY_DEPFILE = 512 };  // a write-if-changed wrapper: when the command finds its outputs up to date it skips the real work and writes no depfile (only used where the property does not depend on the reported dependencies: C02)   // only the command's FIRST output depends on its inputs through content/2: one edit rewrites some outputs of the statement and not others   // the command prunes every directory that holds no file (a packaging / tidy-up step: find -type d -empty -delete)     // the command runs `ninja -t restat` in the build directory when it is done (as CMake's regeneration step does)       // the statement regenerates build.ninja from configure.in (each edit of configure.in selects the next manifest variant)  // the command spells the extra files it read as ./name in its depfile (compilers do, for -I. includes)  // by the manifest text this statement lies on a dependency cycle (expectation independent of ninja's own parse)
 struct CmdSpec {
   const char* out;            // first output of the statement this entry describes
   const char* extra_reads;    // files the command reads beyond its declared explicit/implicit inputs; it reports them (depfile / deps / dyndep)
@@ -131,7 +133,7 @@ static int edge_ordinal(const Edge* e) { return (int)e->id_; }
 static long cmd_hash(const std::string& c) { long h = 7; for (size_t i = 0; i < c.size(); i++) h = (h * 131 + (unsigned char)c[i]) % 1000003L; return h; }
 static long mix(int ordinal, int k, const std::vector<long>& in, int flags, long cmdh = 0) {
   long c = 1000 + 97 * ordinal + k + cmdh * 7;
-  for (size_t i = 0; i < in.size(); i++) c = c * 31 + ((flags & HALVE) ? in[i] / 2 : in[i]) % 100003;
+  for (size_t i = 0; i < in.size(); i++) c = c * 31 + (((flags & HALVE) || ((flags & HALVE_FIRST) && k == 0)) ? in[i] / 2 : in[i]) % 100003;
   return c % 1000000007L;
 }
 // declared-input view of the current manifest used by the reference ("what would a from-scratch build produce")
@@ -236,6 +238,20 @@ struct TokenPool : public Jobserver::Client {
   int outstanding() const { return acquired - released; }
 };
 // where a runner created behind NinjaMain (CommandRunner::factory) leaves what it observed: one invocation may create several (manifest regeneration)
+// the exit code of a failing command: 1..3, or (WIDE_EXIT_CODES) one of the codes a shell, a wrapper script or a test driver hands on -
+// 126/127 (sh: not executable / not found), 128 + SIGHUP/SIGQUIT/SIGKILL/SIGSEGV/SIGTERM (a child of the command died by a signal), the boundaries 128 and 255.
+// 130 is the interrupt code and excluded by the property.
+static inline int sym_exit_code() {
+#ifdef WIDE_EXIT_CODES
+  static const int kCodes[] = { 1, 2, 3, 126, 127, 128, 129, 131, 137, 139, 143, 255 };
+  static bool first = true;      // the first command that fails draws from the whole menu, later ones from 1..3 (keeps the product small; the process-wide flag is per path)
+  if (!first) return 1 + verif_choice("exit_code_minus_1", 3);
+  first = false;
+  return kCodes[verif_concretize(verif_choice("exit_code_index", 12))];
+#else
+  return 1 + verif_choice("exit_code_minus_1", 3);
+#endif
+}
 struct RunnerSink { std::vector<int> started, finished_ok, failed, exit_codes; std::vector<std::string> events; int max_running; bool interrupted; int runners; RunnerSink() : max_running(0), interrupted(false), runners(0) {} };
 static RunnerSink* g_sink;
 static int regen_variant();
@@ -283,11 +299,11 @@ struct SymRunner : public CommandRunner {
       }
     }
     // directories of outputs and depfile exist, response file holds the declared content
-    for (size_t i = 0; i < e->outputs_.size(); i++) { const std::string& p = e->outputs_[i]->path(); size_t sl = p.rfind('/'); if (sl != std::string::npos) VERIF_ASSERT(g_tree->has_dir(p.substr(0, sl)), "C04: the directory of every output exists when the command starts"); }
+    for (size_t i = 0; i < e->outputs_.size(); i++) { const std::string& p = e->outputs_[i]->path(); size_t sl = p.rfind('/'); if (sl != std::string::npos) VERIF_ASSERT(g_dead || g_tree->has_dir(p.substr(0, sl)), "C04: the directory of every output exists when the command starts"); }
     std::string dep = e->GetUnescapedDepfile();
-    if (!dep.empty()) { size_t sl = dep.rfind('/'); if (sl != std::string::npos) VERIF_ASSERT(g_tree->has_dir(dep.substr(0, sl)), "C04: the directory of the depfile exists when the command starts"); }
+    if (!dep.empty()) { size_t sl = dep.rfind('/'); if (sl != std::string::npos) VERIF_ASSERT(g_dead || g_tree->has_dir(dep.substr(0, sl)), "C04: the directory of the depfile exists when the command starts"); }
     std::string rsp = e->GetUnescapedRspfile();
-    if (!rsp.empty()) { VFile* f = g_tree->find(rsp); VERIF_ASSERT(f && f->exists && f->is_text && f->text == e->GetBinding("rspfile_content"), "C16: the response file holds exactly the evaluated rspfile_content when the command starts"); }
+    if (!rsp.empty() && !g_dead && !verif_vfs_frozen()) { VFile* f = g_tree->find(rsp); VERIF_ASSERT(f && f->exists && f->is_text && f->text == e->GetBinding("rspfile_content"), "C16: the response file holds exactly the evaluated rspfile_content when the command starts"); }
     r.stdout_len_at_start = opt.prints_output ? verif_stdout_len() : 0;
     g_commands_started = true;
     active.push_back(r); started.push_back(edge_ordinal(e)); events.push_back("start " + e->outputs_[0]->path());
@@ -325,7 +341,7 @@ struct SymRunner : public CommandRunner {
       return BuildResult::CommandCompleted(e, st, "");
     }
     if (fail) {
-      st = ExitFailure; if (opt.sym_exit_code) st = (ExitStatus)(1 + verif_choice("exit_code_minus_1", 3));
+      st = ExitFailure; if (opt.sym_exit_code) st = (ExitStatus)sym_exit_code();
       failed.push_back(ord); exit_codes.push_back((int)st); failures_seen++; events.push_back("fail " + e->outputs_[0]->path());
       if (opt.failed_touch && verif_bool("failed_command_touched_outputs")) for (size_t k = 0; k < e->outputs_.size(); k++) g_tree->write(e->outputs_[k]->path(), -7 - (long)k);
       return BuildResult::CommandCompleted(e, st, opt.prints_output ? "<<err " + e->outputs_[0]->path() + ">>\n" : std::string("boom"));
@@ -340,6 +356,7 @@ struct SymRunner : public CommandRunner {
       for (size_t i = 0; i < rd.size() && !g_midrun_edit_done; i++) { VFile* f = g_tree->find(rd[i]); if (!f || !f->exists || f->is_text || ref_producer(rd[i])) continue;
         if (verif_bool("source_edited_while_command_ran")) { edit_file(rd[i], 1); g_midrun_edit_done = true; events.push_back("midedit " + rd[i]); } }
     }
+    bool wrote_output = false;
     for (size_t k = 0; k < e->outputs_.size(); k++) {
       const std::string& p = e->outputs_[k]->path();
       if (s && s->dyndep_text && k == 0) {
@@ -350,7 +367,7 @@ struct SymRunner : public CommandRunner {
       long c = mix(ord, (int)k, r.snap, r.flags, r.cmdh);
       VFile* f = g_tree->find(p);
       if ((r.flags & KEEP_IF_SAME) && f && f->exists && !f->is_text && f->content == c) continue;    // identical output left untouched
-      g_tree->write(p, c);
+      g_tree->write(p, c); wrote_output = true;
     }
     if (r.flags & REGEN_MANIFEST) g_manifest_variant = regen_variant();       // the generator has rewritten build.ninja from configure.in
     if (r.flags & RUNS_RESTAT_TOOL) run_restat_tool_from_command();
@@ -359,7 +376,7 @@ struct SymRunner : public CommandRunner {
         if (used) keep.push_back(g_tree->dirs[d]); else events.push_back("rmdir " + g_tree->dirs[d]); } g_tree->dirs = keep; }
     std::vector<std::string> reads = read_set(e);
     std::string dep = e->GetUnescapedDepfile();
-    if (!dep.empty()) { std::string t = e->outputs_[0]->path() + ":"; size_t nd = reads.size(); for (size_t z = 0; z < g_ref.size(); z++) if (g_ref[z].ordinal == ord) nd = g_ref[z].ndeclared;
+    if (!dep.empty() && !((r.flags & LAZY_DEPFILE) && !wrote_output)) { std::string t = e->outputs_[0]->path() + ":"; size_t nd = reads.size(); for (size_t z = 0; z < g_ref.size(); z++) if (g_ref[z].ordinal == ord) nd = g_ref[z].ndeclared;
       for (size_t q = 0; q < reads.size(); q++) t += ((r.flags & NONCANONICAL_DEPFILE) && q >= nd ? " ./" : " ") + reads[q]; t += "\n"; if (g_depfile_override) t = *g_depfile_override; g_tree->write_text(dep, t); }
     if (opt.prints_output && !e->use_console() && verif_bool("command_prints")) { output += out_block(e->outputs_[0]->path()); events.push_back("printed " + e->outputs_[0]->path()); }
     if (e->GetBinding("deps") == "msvc") { for (size_t q = 0; q < reads.size(); q++) output += "Note: including file: " + reads[q] + "\n"; }
@@ -546,8 +563,10 @@ struct MinRef {
           if (p && !p->phony && runs(index_of(p))) { if (!(p->flags & KEEP_IF_SAME) || val(fl[z]) != cur(fl[z])) r = true; }
         }
         // a file that nobody rewrites now but that differs from what the command saw last time
+        // (also when its producer runs now but, being restat-style, reproduces it: the file may have been rewritten by an earlier build that did not include this statement)
         const RefEdge* p1 = ref_producer(e.reads[q]);
-        if (!r && (!p1 || (!p1->phony && !runs(index_of(p1)))) && q < last.snap.size() && cur(e.reads[q]) != last.snap[q]) r = true;
+        bool untouched_now = !p1 || (!p1->phony && (!runs(index_of(p1)) || ((p1->flags & KEEP_IF_SAME) && val(e.reads[q]) == cur(e.reads[q]))));
+        if (!r && untouched_now && q < last.snap.size() && cur(e.reads[q]) != last.snap[q]) r = true;
       }
     }
     state[i] = r ? 3 : 2; return r;
